@@ -441,6 +441,14 @@ func genConfig(r *rng.R, e2e bool) cfgDesc {
 		d.Upstream = r.Pick([]string{"http", "https", "socks5"}) + "://" + r.Pick(proxyHostPorts)
 	case k < 10 && !e2e:
 		d.UpFunc = r.Pick([]string{"direct", "fail", "http://pa.test:3128", "socks5://pb.test:8443", "socks://pa.test:80", "ftp://pa.test:3128"})
+	case k < 10: // end to end: an external proxy function with well-formed answers, by host
+		d.UpFunc = r.Pick([]string{"direct", "fail", "http://pa.test:3128", "https://pb.test:8443", "socks5://pb.test:8443"})
+		d.UpFuncByHost = map[string]string{}
+		for _, h := range partyHosts {
+			if r.Chance(1, 3) {
+				d.UpFuncByHost[strings.Trim(h, "[]")] = r.Pick([]string{"direct", "fail", "http://pa.test:3128", "https://pb.test:8443", "socks5://pa.test:1080", "http://10.9.9.9:1080"})
+			}
+		}
 	default:
 		p := &pacDesc{Table: map[string]string{}, Default: genPacValue(r)}
 		for _, h := range partyHosts {
@@ -501,7 +509,7 @@ func coqCfgd(d cfgDesc, pacRes string, directRes string, isLH bool, hostname str
 	}
 	uf := "None"
 	if d.UpFunc != "" {
-		uf = "(Some " + coqPresult(d.UpFunc) + ")"
+		uf = "(Some " + coqPresult(d.upFuncAnswer(hostname)) + ")"
 	}
 	return fmt.Sprintf("{| d_upfunc := %s; d_upstream := %s; d_pac := %s; d_direct := %s; d_lh_mode := %s; d_is_localhost := %s; d_idna := %s; d_puny := %s |}",
 		uf, up, pacRes, directRes, cs(d.Mode), coqfmt.Bool(isLH), idnaT, punyT)
@@ -613,6 +621,11 @@ type eJSON struct {
 	SameConn bool      `json:"same_conn"`
 	Reqs     []reqSpec `json:"requests"`
 	Obs      []obsJSON `json:"observed,omitempty"`
+	// sessions that ran at the same time against the same proxy instance (this one is Group[GroupIndex]); a replay
+	// runs the whole group again
+	Group      [][]reqSpec `json:"concurrent_group,omitempty"`
+	GroupSame  []bool      `json:"concurrent_group_same_conn,omitempty"`
+	GroupIndex int         `json:"concurrent_group_index,omitempty"`
 }
 
 func coqObs(o obsJSON, hostname string, tgtKind int) string {
@@ -641,36 +654,53 @@ func coqObs(o obsJSON, hostname string, tgtKind int) string {
 func eCase(r *rig, j *eJSON) string {
 	sess := &session{r: r, sameConn: j.SameConn}
 	defer sess.close()
+	return eCaseWith(r, j, func(kind int, scheme, urlhost string) obsJSON { return sess.request(kind, scheme, urlhost) },
+		func() bool { return sess.inMITM })
+}
+
+func schemesOf(kind int, inMITM bool) (scheme string, tgtKind int, tscheme string) {
+	scheme, tgtKind, tscheme = "http", 0, "http"
+	switch kind {
+	case 1:
+		scheme, tgtKind, tscheme = "", 1, ""
+	case 2:
+		scheme, tscheme = "https", "https"
+	case 3:
+		scheme, tscheme = "", "https" // inside the MITM'd TLS session the proxy gives the request the https scheme
+	case 4:
+		if inMITM {
+			tscheme = "https" // an origin-form request on the MITM'd session
+		}
+	}
+	return
+}
+
+func (r *rig) keeps(q reqSpec) bool {
+	hostname := (&url.URL{Host: q.URLHost}).Hostname()
+	if r.desc.Mode == "deny" && r.hp.VerifC05IsLocalhost(hostname) {
+		return false // refused by the access control (C04), not a routing case
+	}
+	if q.Kind == 3 && !r.desc.MITM || q.Kind == 1 && r.desc.MITM {
+		return false
+	}
+	if q.Kind == 3 && asciiForm(hostname) != hostname {
+		// the proxy cannot mint a certificate for a name that is not ASCII: the TLS handshake with the client
+		// fails before any request exists (C07's territory, not a routing case)
+		return false
+	}
+	return true
+}
+
+func eCaseWith(r *rig, j *eJSON, observe func(kind int, scheme, urlhost string) obsJSON, inMITM func() bool) string {
 	var parts []string
 	var kept []reqSpec
 	j.Obs = nil
 	for _, q := range j.Reqs {
-		hostname := (&url.URL{Host: q.URLHost}).Hostname()
-		if r.desc.Mode == "deny" && r.hp.VerifC05IsLocalhost(hostname) {
+		if !r.keeps(q) {
 			continue
 		}
-		if q.Kind == 3 && !r.desc.MITM || q.Kind == 1 && r.desc.MITM {
-			continue
-		}
-		if q.Kind == 3 && asciiForm(hostname) != hostname {
-			// the proxy cannot mint a certificate for a name that is not ASCII: the TLS handshake with the client
-			// fails before any request exists (C07's territory, not a routing case)
-			continue
-		}
-		scheme, tgtKind, tscheme := "http", 0, "http"
-		switch q.Kind {
-		case 1:
-			scheme, tgtKind, tscheme = "", 1, ""
-		case 2:
-			scheme, tscheme = "https", "https"
-		case 3:
-			scheme, tscheme = "", "https" // inside the MITM'd TLS session the proxy gives the request the https scheme
-		case 4:
-			if sess.inMITM {
-				tscheme = "https" // an origin-form request on the MITM'd session
-			}
-		}
-		o := sess.request(q.Kind, scheme, q.URLHost)
+		scheme, tgtKind, tscheme := schemesOf(q.Kind, inMITM())
+		o := observe(q.Kind, scheme, q.URLHost)
 		pacRes, directRes, isLH, hn := r.oracles(tgtKind, tscheme, q.URLHost, o.Pac)
 		parts = append(parts, fmt.Sprintf("(%s, tgt %d %s %s, %s)", coqCfgd(r.desc, pacRes, directRes, isLH, hn),
 			tgtKind, cs(tscheme), cs(q.URLHost), coqObs(o, hn, tgtKind)))
@@ -973,8 +1003,17 @@ func runJob(w *world, jb job) jobResult {
 		res.fc = append(res.fc, c)
 		res.fj = append(res.fj, f)
 	}
-	for i := range jb.e {
+	for i := 0; i < len(jb.e); i++ {
 		e := jb.e[i]
+		if len(e.Group) > 0 { // a concurrent group: all its sessions run at the same time
+			cs, js := runGroup(rg, e)
+			res.ec = append(res.ec, cs...)
+			res.ej = append(res.ej, js...)
+			if i+len(e.Group) <= len(jb.e) && jb.e[i+len(e.Group)-1].GroupIndex == len(e.Group)-1 {
+				i += len(e.Group) - 1 // the other members were generated with it
+			}
+			continue
+		}
 		c := eCase(rg, &e)
 		if c == "" {
 			continue
@@ -983,6 +1022,64 @@ func runJob(w *world, jb job) jobResult {
 		res.ej = append(res.ej, e)
 	}
 	return res
+}
+
+// nextMITM: whether the client's connection is inside a MITM'd TLS session after a request of that kind
+// (session.exchange: only a kept-alive connection stays; kinds 0, 1, 2 use / open a plain connection).
+func nextMITM(prev bool, kind int, sameConn bool) bool {
+	switch kind {
+	case 3:
+		return sameConn
+	case 4:
+		return prev && sameConn
+	default:
+		return false
+	}
+}
+
+// runGroup runs the sessions of e.Group concurrently and returns one case per session.
+func runGroup(r *rig, e eJSON) ([]string, []any) {
+	group := make([][]reqSpecC, len(e.Group))
+	kept := make([][]reqSpec, len(e.Group))
+	for i, reqs := range e.Group {
+		mitm := false
+		for _, q := range reqs {
+			if !r.keeps(q) {
+				continue
+			}
+			scheme, _, _ := schemesOf(q.Kind, mitm)
+			mitm = nextMITM(mitm, q.Kind, e.GroupSame[i])
+			group[i] = append(group[i], reqSpecC{Kind: q.Kind, Scheme: scheme, URLHost: q.URLHost, SameConn: e.GroupSame[i]})
+			kept[i] = append(kept[i], q)
+		}
+	}
+	var g2 [][]reqSpecC
+	var idx []int
+	for i := range group {
+		if len(group[i]) > 0 {
+			g2 = append(g2, group[i])
+			idx = append(idx, i)
+		}
+	}
+	obs := r.concurrent(g2)
+	var cs []string
+	var js []any
+	for k, i := range idx {
+		j := eJSON{Kind: "e2e", Cfg: e.Cfg, SameConn: e.GroupSame[i], Reqs: kept[i], Group: e.Group, GroupSame: e.GroupSame, GroupIndex: i}
+		n := 0
+		cur := false // is the session's connection inside a MITM'd TLS session BEFORE the next request
+		c := eCaseWith(r, &j, func(kind int, scheme, urlhost string) obsJSON {
+			o := obs[k][n]
+			n++
+			cur = nextMITM(cur, kind, e.GroupSame[i])
+			return o
+		}, func() bool { return cur })
+		if c != "" {
+			cs = append(cs, c)
+			js = append(js, j)
+		}
+	}
+	return cs, js
 }
 
 func hostPort(h, port string) string { return net.JoinHostPort(strings.Trim(h, "[]"), port) }
@@ -1024,6 +1121,40 @@ func genSession(r *rng.R, d *cfgDesc) eJSON {
 	}
 	e.Reqs = reqs
 	return e
+}
+
+// genGroup: 4..6 sessions that will run concurrently; every request gets a host name of its own (a label in
+// front of a pool name) so that the traffic of the scripted network can be attributed to it.
+func genGroup(r *rng.R, d *cfgDesc, salt int) []eJSON {
+	n := 4 + r.Intn(3)
+	group := make([][]reqSpec, n)
+	same := make([]bool, n)
+	bases := []string{"origin.test", "other.test", "www.direct.test", "direct.example", "localhost.test"}
+	for i := 0; i < n; i++ {
+		same[i] = r.Chance(1, 2)
+		m := 3 + r.Intn(3)
+		var a, c []reqSpec
+		for k := 0; k < m; k++ {
+			h := fmt.Sprintf("c%dx%dx%d.%s", salt, i, k, r.Pick(bases))
+			port := r.Pick([]string{"80", "8080", "443"})
+			kind := int(r.Pick([]string{"0", "0", "2", "3", "1", "4"})[0] - '0')
+			q := reqSpec{Kind: kind, URLHost: hostPort(h, port)}
+			if kind == 1 {
+				c = append(c, q)
+			} else {
+				a = append(a, q)
+			}
+		}
+		if same[i] && len(c) > 1 {
+			c = c[:1] // a CONNECT tunnel ends the connection
+		}
+		group[i] = append(a, c...)
+	}
+	var out []eJSON
+	for i := 0; i < n; i++ {
+		out = append(out, eJSON{Kind: "e2e", Cfg: *d, SameConn: same[i], Reqs: group[i], Group: group, GroupSame: same, GroupIndex: i})
+	}
+	return out
 }
 
 func genTargets(r *rng.R, d *cfgDesc) (fs []fJSON) {
@@ -1133,8 +1264,15 @@ func runConfigs(r *rng.R, nF, nE int, ss *shardSet, m *meta) {
 			d.FailFirst = r.Intn(3)
 		}
 		es := []eJSON{genSession(r, &d), genSession(r, &d)}
-		jobs = append(jobs, job{idx: len(jobs), desc: d, e: es})
 		ne += len(es[0].Reqs) + len(es[1].Reqs)
+		if d.FailFirst == 0 && r.Chance(1, 3) { // and a group of sessions running at the same time
+			g := genGroup(r, &d, len(jobs))
+			es = append(es, g...)
+			for _, e := range g {
+				ne += len(e.Reqs)
+			}
+		}
+		jobs = append(jobs, job{idx: len(jobs), desc: d, e: es})
 	}
 	results := make([]jobResult, len(jobs))
 	ch := make(chan job)
@@ -1182,6 +1320,12 @@ func runConfigs(r *rng.R, nF, nE int, ss *shardSet, m *meta) {
 	for _, j := range ej {
 		e := j.(eJSON)
 		m.Dist["e2e_sessions"]++
+		if len(e.Group) > 0 {
+			m.Dist["e2e_sessions_concurrent"]++
+		}
+		if e.Cfg.UpFunc != "" {
+			m.Dist["e2e_cfg_upstream_func"]++
+		}
 		if e.SameConn {
 			m.Dist["e2e_sessions_on_one_connection"]++
 		}
